@@ -73,3 +73,4 @@ def run(ses, which='exp'):
 
 confirm = c01.confirm
 replay = c01.replay
+BASELINE = ['c11']
